@@ -162,8 +162,19 @@ def gen_true(rng: random.Random, vendor: str, fmt: str, max_l=None):
     nb = S.shape[0]
     nprng = np.random.default_rng(rng.getrandbits(60))
     kind = rng.choice(["restricted", "unrestricted"])
-    Ca = gto.lowdin(S, nprng.normal(size=(nb, nb)))
-    Cb = gto.lowdin(S, nprng.normal(size=(nb, nb))) if kind == "unrestricted" else None
+
+    def _orbitals():
+        # complete orthonormal set: Loewdin-orthonormalised random matrix.  A random square matrix can be badly
+        # conditioned, so start from a random orthogonal matrix in the S^(-1/2) metric and polish once.
+        q, _ = np.linalg.qr(nprng.normal(size=(nb, nb)))
+        c = gto.lowdin(S, gto.lowdin(S, np.eye(nb)) @ q)
+        return c
+
+    Ca = _orbitals()
+    Cb = _orbitals() if kind == "unrestricted" else None
+    for C in (Ca, Cb):
+        if C is not None and np.abs(C.T @ S @ C - np.eye(nb)).max() > 1e-11:
+            return None
     nel = sum(zs)
     if kind == "restricted":
         nocc = rng.randint(0, min(nb, 6))
